@@ -101,6 +101,8 @@ def judge(x2, x_min, x_max, kept_ex, full_ex, share, chi2_left, w_expected,
           out):
     """All disagreements between one BMCI answer and the statement.
 
+    x2: the x2_max asked for; negative numbers and None (argument omitted,
+    i.e. typhon's default) both mean the unrestricted mode;
     x_min, x_max: extreme x of the database; kept_ex: Expect for the entries
     inside the window BMCI reports; full_ex: Expect for the whole database;
     share: weight share of the left-out entries (None if nothing is left out
@@ -119,10 +121,11 @@ def judge(x2, x_min, x_max, kept_ex, full_ex, share, chi2_left, w_expected,
                         repr(out[name])[:120], name))
 
     # ---- pruning leaves out only entries with chi2 > x2_max
-    if x2 < 0 and chi2_left:
+    unrestricted = x2 is None or x2 < 0
+    if unrestricted and chi2_left:
         bad.append(("weights/unrestricted-mode-leaves-out-entries", 0,
                     len(chi2_left), ""))
-    if x2 >= 0 and any(c <= x2 for c in chi2_left):
+    if not unrestricted and any(c <= x2 for c in chi2_left):
         bad.append(("prune/left-out-entry-with-chi2-not-above-x2max",
                     "chi2 > %r for every left-out entry" % x2,
                     sorted(chi2_left)[:4], ""))
